@@ -648,13 +648,72 @@ def case_many_atoms(rng, ctx):
         want_nb = sorted({b_ if a_ == int(arr[0, 0]) else a_ for (a_, b_) in want if int(arr[0, 0]) in (a_, b_)})
         if sorted(int(v) for v in nb) != want_nb:
             ctx.fail("views_vs_model", "get_bonds(%d) on %d atoms: %s, expected %s" % (int(arr[0, 0]), n, sorted(int(v) for v in nb)[:10], want_nb[:10]))
+    # boolean mask / slice selection that removes more than 65535 atoms in front of kept, bonded atoms
+    bl = BondList(n, arr)
+    full = bl.as_array().astype(np.int64)
+    mask = np.ones(n, dtype=bool)
+    cut = 65536 if n <= 65538 else int(rng.integers(65536, n - 1))
+    mask[:cut] = rng.random(cut) < 0.02
+    if rng.random() < 0.5:
+        mask[cut:] = rng.random(n - cut) < 0.9
+    newidx = np.cumsum(mask) - 1
+    keep = mask[full[:, 0]] & mask[full[:, 1]]
+    want_sel = {(int(newidx[a_]), int(newidx[b_])): int(t_) for a_, b_, t_ in full[keep]}
+    for form in ("mask", "slice"):
+        ctx.op("getitem_many_atoms_" + form)
+        ctx.oracle("views_vs_model")
+        if form == "mask":
+            sub, wsel, cnt = bl[mask], want_sel, int(mask.sum())
+        else:
+            sub = bl[cut:]
+            k2 = (full[:, 0] >= cut) & (full[:, 1] >= cut)
+            wsel, cnt = {(int(a_ - cut), int(b_ - cut)): int(t_) for a_, b_, t_ in full[k2]}, n - cut
+        gs = {(int(r_[0]), int(r_[1])): int(r_[2]) for r_ in sub.as_array()}
+        if sub.get_atom_count() != cnt or gs != wsel:
+            bad = [k_ for k_ in wsel if k_ not in gs][:4] + [k_ for k_ in gs if k_ not in wsel][:4]
+            ctx.fail("views_vs_model", "BondList[%s] over %d atoms (%d kept, first %d mostly removed): %d bonds, expected %d (e.g. %s)"
+                     % (form, n, cnt, cut, len(gs), len(wsel), bad))
     ctx.state(("many_atoms", kind, n))
+
+
+def case_hub(rng, ctx):
+    """One atom with 255..600 bonds (the per-atom bond count passes 8 bits; it sizes the buffers of get_bonds and
+    get_all_bonds), built at once or bond by bond, then partly removed again."""
+    d = int(rng.choice([255, 256, 257, 300, 511, 512, 600]))
+    n = d + int(rng.integers(1, 60))
+    hub = int(rng.integers(n))
+    others = [i for i in range(n) if i != hub]
+    part = [int(x) for x in rng.permutation(others)[:d]]
+    rows = [(hub, p_, int(rng.integers(0, 7))) if rng.random() < 0.5 else (p_, hub, int(rng.integers(0, 7))) for p_ in part]
+    rows += [(int(a_), int(b_), 1) for a_, b_ in rng.integers(0, n, size=(20, 2)) if a_ != b_]
+    ctx.log("BondList(hub)", n, hub, d)
+    ctx.op("construct_hub")
+    ctx.mark_nontrivial()
+    m = Model.construct(n, rows)
+    if rng.random() < 0.5:
+        bl = BondList(n, np.array(rows, dtype=np.int64))
+    else:
+        bl = BondList(n)
+        for a_, b_, t_ in rows:
+            bl.add_bond(a_, b_, t_)
+        m = Model(n)
+        for a_, b_, t_ in rows:
+            m.d[(min(a_, b_), max(a_, b_))] = t_          # add_bond: the later type replaces the earlier one
+    check_views(ctx, bl, m)
+    # remove bonds of the hub until fewer than 256 are left: the cached maximum must follow
+    for p_ in part[: int(rng.integers(1, d - 200))]:
+        bl.remove_bond(hub, p_)
+        m.d.pop((min(hub, p_), max(hub, p_)), None)
+    check_views(ctx, bl, m)
+    ctx.state(("hub", d, n > 256))
 
 
 def case_construct(rng, ctx):
     """Constructor inputs incl. invalid ones."""
     if ctx.index % 100 == 7:
         return case_many_atoms(rng, ctx)
+    if ctx.index % 100 == 57:
+        return case_hub(rng, ctx)
     n = int(rng.integers(0, 12))
     kind = str(rng.choice(["valid", "oob_high", "oob_low", "bad_shape", "bad_type", "valid"]))
     ctx.op("construct_" + kind)
